@@ -25,6 +25,7 @@ type StepCfg struct {
 	Name       string   `json:"name"`
 	Depends    []string `json:"depends,omitempty"`
 	Fail       int      `json:"fail,omitempty"` // first Fail attempts fail; -1 always
+	CreateFail int      `json:"createFail,omitempty"` // first CreateFail attempts fail before a process exists
 	Unmet      bool     `json:"unmet,omitempty"` // own precondition unmet
 	Limit      int      `json:"limit,omitempty"` // retry limit (RetryPolicy present iff HasRetry)
 	HasRetry   bool     `json:"retry,omitempty"`
@@ -72,6 +73,9 @@ func (c *Config) String() string {
 		}
 		if s.Fail != 0 {
 			at = append(at, fmt.Sprintf("fail%d", s.Fail))
+		}
+		if s.CreateFail != 0 {
+			at = append(at, fmt.Sprintf("createfail%d", s.CreateFail))
 		}
 		if s.HasRetry {
 			at = append(at, fmt.Sprintf("retry%d/%dms", s.Limit, s.IntervalMs))
@@ -239,7 +243,7 @@ func buildSteps(cfg *Config) ([]dag.Step, map[string]*vexec.Script) {
 		}
 		st.SignalOnStop = s.SigOnStop
 		steps = append(steps, st)
-		scripts[s.Name] = &vexec.Script{Fail: s.Fail, Hang: s.Hang, IgnoreTerm: s.IgnoreTerm, OutBytes: cfg.OutBytes}
+		scripts[s.Name] = &vexec.Script{Fail: s.Fail, CreateFail: s.CreateFail, Hang: s.Hang, IgnoreTerm: s.IgnoreTerm, OutBytes: cfg.OutBytes}
 	}
 	for h, beh := range cfg.Handlers {
 		sc := &vexec.Script{}
